@@ -207,6 +207,15 @@ def generate(rng, tier):
         cases.append(dict(kind=k, prefix="p", stream="shared", ops=[
             dict(op="mk", slot=0, id="Op/20200227/shared"), dict(op="fill", slot=0, data=[["k", val]], meta=[], pool=pool),
             dict(op="save", slot=0), dict(op="get", id="Op/20200227/shared")]))
+    for k in kinds:                                     # minimised F07c witness: {'a': P(x=[1]), 'b': L, 'c': L}, L = [7]
+        pool = [pv.lst([pv.i(7)])]
+        cases.append(dict(kind=k, prefix="", stream="shared", ops=[
+            dict(op="create", slot=0, cat="Op"),
+            dict(op="fill", slot=0, meta=[], pool=pool,
+                 data=[["a", {"t": "obj", "cls": "lib.pyvals.Pt", "v": [["x", pv.lst([pv.i(1)])]]}],
+                       ["b", {"t": "ref", "n": 0}], ["c", {"t": "ref", "n": 0}]]),
+            dict(op="save", slot=0),
+            dict(op="get", id=("Op/20200227/%032x" if k == "s3" else "Op/%032x") % 1)]))
     for i in range(6):                                  # file-path collisions of hand-made ids (observation)
         cases.append(gen_case(rng, tier, "collision", kinds[i % 3]))
     return cases
